@@ -27,6 +27,7 @@ UNIT_HARNESS = {
     'consts': ('blocks_harness.rs', 'consts'),
     'repeat': ('blocks_harness.rs', 'repeat'),
     'hdlc': ('blocks_harness.rs', 'hdlc'),
+    'sync': ('blocks_harness.rs', 'sync'),
 }
 
 
@@ -55,7 +56,8 @@ def run(units, repo='/repo', depth=None, n=None, seed=None, timeout=600):
     os.makedirs(os.path.join(VERIF, 'build'), exist_ok=True)
     with open(os.path.join(VERIF, 'build', 'bx.lock'), 'w') as lk:
         fcntl.flock(lk, fcntl.LOCK_EX)
-        subprocess.run(['rsync', '-a', '--delete', '--exclude', 'target', '--exclude', '.git', repo.rstrip('/') + '/', SRC + '/'], check=True)
+        import synctree
+        synctree.sync(repo, SRC)
         os.makedirs(os.path.join(SRC, 'tests'), exist_ok=True)
         env = dict(os.environ, CARGO_NET_OFFLINE='true', CARGO_TARGET_DIR=TARGET, RUST_MIN_STACK='67108864', CARGO_PROFILE_DEV_OPT_LEVEL='1')
         if depth:
